@@ -258,7 +258,13 @@ def run(ctx, res):
                 return t.get(k)
             view = lambda v: [{k: part(t, k) for k in ("table_name", "columns", "primary_key", "alter", "index", "checks")}
                               for t in v if isinstance(t, dict) and "table_name" in t]
-            if view(a) != view(b):
+            def within(x, y):        # y (dialect mode) may add its own documented keys to any dict; everything of x must be there unchanged
+                if isinstance(x, dict) and isinstance(y, dict):
+                    return all(k in y and within(v, y[k]) for k, v in x.items())
+                if isinstance(x, (list, tuple)) and isinstance(y, (list, tuple)):
+                    return len(x) == len(y) and all(within(u, w) for u, w in zip(x, y))
+                return x == y
+            if not within(view(a), view(b)):
                 res.violation("input", "output_mode=%s: the tables after the ALTER / INDEX statements differ from the default mode" % mode, ddl=h["text"], mode=mode,
                               oracle="history_modes")
     # ---- correspondence E on the implementation's own parser output ---------------------------------------
